@@ -870,7 +870,7 @@ class Ex:
         if isinstance(obj, VOpaque) and obj.kind == "ns":
             if attr in obj.data:
                 return obj.data[attr]
-            raise Unsupported(f"attribute {attr} of namespace")
+            return VBound(obj, attr)
         if isinstance(obj, VOpt):
             # attribute of a possibly-None value
             self.oblige(f"no-AttributeError-on-None[{self.site(node) if node else attr}]", obj.some, kind="safety", site=self.site(node) if node else attr)
